@@ -43,14 +43,17 @@ Single == /\ ~done
    subtraction would make of a reversed first range *)
 Double == /\ ~done
           /\ \E lo1 \in 0..(decl.n + 1) : \E hi1 \in 0..(decl.n + 1) : \E lo2 \in {0, 1} : \E hi2 \in {decl.n - 2, decl.n - 1, decl.n} :
-             LET rs == << <<lo1, hi1>>, <<lo2, hi2>> >>
+             \E swap \in BOOLEAN :                                   \* the odd range first or second in the list
+             LET rs == IF swap THEN << <<lo2, hi2>>, <<lo1, hi1>> >> ELSE << <<lo1, hi1>>, <<lo2, hi2>> >>
                  raw == (hi1 + 1 - lo1) + (hi2 + 1 - lo2)       \* what naive arithmetic computes
              IN /\ lo2 <= hi2 /\ hi1 + 2 >= lo1
                 /\ (Level = 1 => (lo1 > hi1 \/ hi1 >= decl.n - 1))
+                /\ (swap => lo1 > hi1)
                 /\ \E tw \in ({SumW(rs), raw} \cap (1..128)) : \E arr \in {<<>>, <<2>>} :
+                   \E st \in (IF arr = <<>> THEN {<<>>} ELSE {<<>>, <<1>>}) :    \* stride is mandatory for non-contiguous arrays
                    decl' = [decl EXCEPT !.fields = << [name |-> "x", kind |-> IF tw \in Native THEN "unat" ELSE "uarb", tw |-> tw, ty |-> 0,
                                                           ranges |-> rs, list |-> TRUE, array |-> arr,
-                                                          stride |-> IF arr = <<>> THEN <<>> ELSE <<1>>, access |-> "rw"] >>]
+                                                          stride |-> st, access |-> "rw"] >>]
           /\ done' = TRUE
 
 Next == Single \/ Double
